@@ -129,6 +129,26 @@ def check(run, driver):
                                 vz = f(X, Y, Z[:, list(cp)])
                                 if not rel_close(v, vz):
                                     run.prop_fail("estimate depends on the order of the conditioning columns", case, sig("z_col_perm"), {"base": v, "reordered": vz, "column_order": cp}); break
+    # ---- dedicated stream: Gaussian estimator with two strongly correlated conditioning columns (correlation 0.999 .. 0.9996: condition
+    #      number of the sample correlation matrix a few thousand, far from singular) -- every column order of Z, X <-> Y
+    for it in range(30 if thorough else 10):
+        N = int(rng.integers(30, 80)); kx, ky = int(rng.integers(1, 3)), int(rng.integers(1, 3)); kz = int(rng.integers(2, 4))
+        W = rng.standard_normal((N, kx + ky + kz))
+        W[:, 0] += 0.5 * W[:, kx + ky]; W[:, kx] += 0.4 * W[:, kx + ky]
+        rho = float(rng.uniform(0.999, 0.9996))
+        j1, j2 = (kx + ky, kx + ky + 1) if it % 2 == 0 else (kx + ky + kz - 1, kx + ky)
+        W[:, j1] = rho * W[:, j2] + math.sqrt(1 - rho * rho) * rng.standard_normal(N)
+        X, Y, Z = W[:, :kx], W[:, kx:kx + ky], W[:, kx + ky:]
+        f = (lambda a, b, c: float(C.gaussian_conditional_mutual_information(a, b, c))) if it % 2 else (lambda a, b, c: float(C.conditional_mutual_information(a, b, c, method="gaussian")))
+        v = f(X, Y, Z)
+        case = {"estimator": "gaussian", "path": "Z given", "data": "continuous, two nearly collinear conditioning columns", "N": N, "kx": kx, "ky": ky, "kz": kz, "X": X, "Y": Y, "Z": Z}
+        run.case("gaussian-collinear-z", [N, kx, ky, kz, float(W[0, 0])], True, sample={k_: case[k_] for k_ in ("estimator", "data", "N", "kx", "ky", "kz")} | {"value": v})
+        tol = lambda a, b: abs(a - b) <= 1e-9 * max(1.0, abs(a), abs(b)) * 1e3      # (rounding amplified by the condition number ~ 1e3)
+        for cp in itertools.permutations(range(kz)):
+            if list(cp) != list(range(kz)) and not tol(v, f(X, Y, Z[:, list(cp)])):
+                run.prop_fail("estimate depends on the order of the conditioning columns", case, {"estimator": "gaussian", "path": "Z given", "transformation": "z_col_perm"}, {"base": v, "reordered": f(X, Y, Z[:, list(cp)]), "column_order": cp}); break
+        if not tol(v, f(Y, X, Z)):
+            run.prop_fail("estimate changes when X and Y are exchanged", case, {"estimator": "gaussian", "path": "Z given", "transformation": "swap_xy"}, {"I(X;Y|Z)": v, "I(Y;X|Z)": f(Y, X, Z)})
     # ---- dedicated stream: KDE on platykurtic (uniform) data, where individual KDE information terms are often negative
     for it in range(120 if thorough else 40):
         N = int(rng.integers(12, 46)); kx, ky, kz = int(rng.integers(1, 3)), int(rng.integers(1, 3)), int(rng.integers(1, 4))
